@@ -45,3 +45,17 @@ PROPS['C19'] = dict(
   text='Decides that blt/fill primitives return FALSE only before writing and that no caller drops that status unless its registration guarantees the depth; that for each of the 12 formats the direct-fill shortcut accepts, its pixel equals the general store conversion of the solid colour on all defined bits for all 2^64 colours; '
        'that every such depth is handled by the portable fill; that the shortcut\'s rectangles are bounded by the image. Head/body/tail pixel accounting of the fill loops is not decided here.',
   note='Trusted: clang-14 IR = built program, bitprov transfer functions. F1/F7 were repaired in /repo (fix: commits).')
+PROPS['C01'] = dict(
+  technique='static analysis: operator-slot exhaustiveness against the public enum (T-EXH), symbolic factor extraction from the float combiners compared with the Render table by rational normal form (T-ALG)',
+  text='Decides for all 53 operators that the pipeline general_composite_rect can select has a combiner (float always, 32-bit wherever needs_division is 0), and for the 38 Porter-Duff/disjoint/conjoint operators x {unified, component alpha} that the registered float combiner computes min(1, s*Fa + d*Fb) '
+       'with exactly the Render factors: each factor is read out of the IR of the factor switch (zero guard, clamp, rational expression) and compared symbolically (sympy) with the specification, including the observable division-by-zero defaults. A wrong or swapped factor, a slot registered under the wrong operator, or a missing slot is reported by operator.',
+  note='Trusted: clang-14 IR = built program; the Render factor table (DESIGN Appendix B.1). Not decided: 8-bit rounding macros, PDF blend formulas, SIMD combiners, fetch/store and quantisation.')
+PROPS['C09'] = dict(
+  technique='static analysis: finite rewriting of Porter-Duff factor pairs under sa:=1 / da:=1 against the decoded operator_table (T-ALG)',
+  text='Decides for all 53 operators x {neither, source, destination, both opaque} that the replacement operator named by operator_table has the same factor pair as the original after substituting the opacity (with range reasoning for the clamped disjoint/conjoint factors and the premultiplication argument for unobservable defaults); non-Porter-Duff operators must map to themselves. 212 obligations, exhaustive.',
+  note='Trusted: Render factor table; sympy simplification. Not decided here (planned: guard atoms of the opacity flags in compute_image_info and of the mask elision).')
+PROPS['C12'] = dict(
+  technique='static analysis: compile-time evaluation of the sample-grid macros (witness identities), clamp/guard recognition in the six edge rasterisers, guard atoms of the direct-rasterise shortcut, factor algebra for zero_src_has_no_effect, field coverage of the extents computation',
+  text='Decides the constant identities that make coverage an exact sample count (N_X*N_Y == 2^n-1, steps add to one pixel, sample positions inside the pixel, RENDER_SAMPLES_X end points) for depths 1/4/8; that each of the six rasteriser instantiations clamps lx at 0 and rx at exactly bits.width and uses unclamped coordinates nowhere in a row address; '
+       'that the direct-rasterise shortcut requires ADD, opaque source, equal format and an unclipped destination; that zero_src_has_no_effect is TRUE only where Fb(sa=0)=1; that the trapezoid bounding box folds every end point. Edge stepping and sample_ceil/floor arithmetic are not decided.',
+  note='Trusted: clang constant folding of the macros; Render factor table.')
